@@ -139,6 +139,25 @@ pub fn run(args: &[String]) {
             w.complex(nc, nc, &pr, &pi, &er, &ei, "sparsec");
         }
     }
+    // complex matrices with small Gaussian-integer entries, many of them zero (pivots with a vanishing real or imaginary part):
+    // i * I_n, diag(1, .., 1, i), and random sparse ones; the exact oracle decides singularity
+    for n in 1..=6usize {
+        let mut zr = vec![0.0; n * n]; let mut zi = vec![0.0; n * n];
+        for i in 0..n { zi[i * n + i] = 1.0; }
+        let (br, bi): (Vec<f64>, Vec<f64>) = ((0..n).map(|i| i as f64 - 1.0).collect(), (0..n).map(|i| 2.0 - i as f64).collect());
+        w.complex(n, n, &zr, &zi, &br, &bi, "gaussint");
+        for i in 0..n { zi[i * n + i] = if i + 1 == n { -2.0 } else { 0.0 }; zr[i * n + i] = if i + 1 == n { 0.0 } else { 1.0 }; }
+        w.complex(n, n, &zr, &zi, &br, &bi, "gaussint");
+    }
+    for _ in 0..cases {
+        let n = 2 + rng.below(4);
+        let ent = |rng: &mut Rng| if rng.chance(0.55) { 0.0 } else { rng.below(5) as f64 - 2.0 };
+        let ar: Vec<f64> = (0..n * n).map(|_| ent(&mut rng)).collect();
+        let ai: Vec<f64> = (0..n * n).map(|_| ent(&mut rng)).collect();
+        let br: Vec<f64> = (0..n).map(|_| rng.range(-4.0, 4.0)).collect();
+        let bi: Vec<f64> = (0..n).map(|_| rng.range(-4.0, 4.0)).collect();
+        w.complex(n, n, &ar, &ai, &br, &bi, "gaussint");
+    }
     // well-conditioned matrices at the edges of the f64 range: the factorisation and the solve must not break down
     for (k, sc) in [1e-170, 1e170, 1e-300, 1e300, 1e-310].iter().enumerate() {
         let n = 3;
